@@ -160,6 +160,30 @@ fn one_case(ctx: &Ctx, case: u64, l: &mut Local) {
             }
         }
     }
+    // ---- self-issued credential: the confirmed holder key IS the issuer's key pair; the honest
+    // key-bound presentation verifies like any other
+    if case % 4 == 1 {
+        let mut issuer = sd_jwt_rs::SDJWTIssuer::new(keys::holder_enc(halg, 0), Some(halg.name().to_string()));
+        if let Ok(si) = pipeline::issue_with(&mut issuer, &s.u, &s.strat, Some((halg, 0)), cfg.decoys, fmt) {
+            if let Outcome::Ok(mut h) = api::holder_new(&si.sd_jwt, fmt) {
+                if let Outcome::Ok(p2) = api::present(&mut h, &sel, Some(&kb)) {
+                    let v = api::verify(&p2, &Resolver::HolderKey(halg, 0), Some((&kb.aud, &kb.nonce)), fmt);
+                    l.evals += 1;
+                    if v.out.is_ok() {
+                        l.count("control.self-issued.accepted");
+                    } else {
+                        l.violate(Violation {
+                            subcheck: "control-rejected".into(),
+                            class: format!("self-issued credential: holder key = issuer key ({}, {})", halg.name(), fmt.name()),
+                            observed: v.out.panic_signature().unwrap_or_else(|| v.out.describe()),
+                            case,
+                            detail: json!({"config": cfg.describe(), "history": api::history()}),
+                        });
+                    }
+                }
+            }
+        }
+    }
     // ---- control
     let control = api::verify(&pres, &resolver, Some((&aud, &nonce)), fmt);
     l.evals += 1;
@@ -312,7 +336,7 @@ fn one_case(ctx: &Ctx, case: u64, l: &mut Local) {
         let mut p = honest_payload();
         p.as_object_mut().unwrap().remove("aud");
         must_reject(l, "aud", 0, &with_kb(Some(api::sign_kb(halg, 0, &p, Some("kb+jwt")))), a, n, 0);
-        for (i, other) in [json!(format!("{aud}x")), json!(""), json!(null), json!([format!("{aud}y")]), json!(7)].iter().enumerate() {
+        for (i, other) in [json!(format!("{aud}x")), json!(""), json!(null), json!([format!("{aud}y")]), json!(7), json!([]), json!([[]]), json!({}), json!([null]), json!([[aud]])].iter().enumerate() {
             if *other == json!(aud) {
                 continue;
             }
@@ -399,6 +423,28 @@ fn one_case(ctx: &Ctx, case: u64, l: &mut Local) {
                         detail: json!({"credential": desc, "nonce": lit}),
                     });
                 }
+            }
+        }
+    }
+    // honest KB-JWTs (signing oracle) whose iat is minutes / a day old, or slightly ahead: the property
+    // names no freshness window, a stored presentation is still a valid one
+    for (k, dt) in [-900i64, -86_400, -3_600, 30].iter().enumerate() {
+        let mut p = honest_payload();
+        p["iat"] = json!((api::now() as i64 + dt) as u64);
+        let q = with_kb(Some(api::sign_kb(halg, 0, &p, Some("kb+jwt"))));
+        if let Some(enc) = q.encode(fmt, 0) {
+            let v = api::verify(&enc, &resolver, Some((&aud, &nonce)), fmt);
+            l.evals += 1;
+            if v.out.is_ok() {
+                l.count("control.kb-iat-not-now.accepted");
+            } else {
+                l.violate(Violation {
+                    subcheck: "control-rejected".into(),
+                    class: format!("honest KB-JWT whose iat is {dt} s from now ({})", fmt.name()),
+                    observed: v.out.panic_signature().unwrap_or_else(|| v.out.describe()),
+                    case,
+                    detail: json!({"credential": desc, "kb_iat_offset_s": dt, "k": k}),
+                });
             }
         }
     }
